@@ -270,6 +270,325 @@ end
 
 end main
 
+/-! ### every node ParseSelector reads as `s` is validated like `enc s` -/
+
+theorem clause_eq {n : Node} {k : String} {v : Node} (h : clause n = some (k, v)) : n = .map [(k, v)] := by
+  unfold clause at h
+  split at h
+  · simp only [Option.some.injEq, Prod.mk.injEq] at h; rw [h.1, h.2]
+  · simp at h
+
+theorem bodyOf_eq {key : String} {n : Node} {kvs : List (String × Node)} (h : bodyOf key n = some kvs) :
+    n = .map [(key, .map kvs)] := by
+  unfold bodyOf at h
+  split at h
+  · rename_i k kvs' hc
+    split at h
+    · rename_i hk
+      simp only [Option.some.injEq] at h
+      rw [clause_eq hc, hk, h]
+    · simp at h
+  · simp at h
+
+/-- a node that parses as a selector is a map, not a link -/
+theorem parsesB_isLink : ∀ (s : Sel) (n : Node), parsesB s n = true → n.isLink = false := by
+  intro s n h
+  have key : ∀ (k : String) (kvs : List (String × Node)), bodyOf k n = some kvs → n.isLink = false := by
+    intro k kvs hb; rw [bodyOf_eq hb]; rfl
+  cases s with
+  | matcher sub =>
+    unfold parsesB at h
+    cases hb : bodyOf "." n with
+    | none => simp [hb] at h
+    | some kvs => exact key _ _ hb
+  | all s' =>
+    unfold parsesB at h
+    cases hb : bodyOf "a" n with
+    | none => simp [hb] at h
+    | some kvs => exact key _ _ hb
+  | fields fs =>
+    unfold parsesB at h
+    cases hb : bodyOf "f" n with
+    | none => simp [hb] at h
+    | some kvs => exact key _ _ hb
+  | index i s' =>
+    unfold parsesB at h
+    cases hb : bodyOf "i" n with
+    | none => simp [hb] at h
+    | some kvs => exact key _ _ hb
+  | range a b s' =>
+    unfold parsesB at h
+    cases hb : bodyOf "r" n with
+    | none => simp [hb] at h
+    | some kvs => exact key _ _ hb
+  | recursive l seq st =>
+    unfold parsesB at h
+    cases hb : bodyOf "R" n with
+    | none => simp [hb] at h
+    | some kvs => exact key _ _ hb
+  | edge =>
+    unfold parsesB at h
+    cases hb : bodyOf "@" n with
+    | none => simp [hb] at h
+    | some kvs => exact key _ _ hb
+  | union ms =>
+    unfold parsesB at h
+    cases hc : clause n with
+    | none => simp [hc] at h
+    | some kv => obtain ⟨k, v⟩ := kv; rw [clause_eq hc]; rfl
+  | interpretAs adl s' =>
+    unfold parsesB at h
+    cases hb : bodyOf "~" n with
+    | none => simp [hb] at h
+    | some kvs => exact key _ _ hb
+
+/-- the limit node of a parsed ExploreRecursive clause is matched, whatever it looks like -/
+theorem walk_limit_any (F : RSel) (ln : Node) :
+    walk (.recursive F .matcher .none) ln = ⟨[ln], false⟩ := by
+  cases ln <;> simp [walk, visit, isMatch, interests, Res.seqAll, Res.seq, Res.empty]
+
+theorem walk_rec_clause_any (F : RSel) (kvs : List (String × Node)) (ln v : Node)
+    (h1 : lookupNode "l" kvs = some ln) (hl1 : ln.isLink = false)
+    (h2 : lookupNode ":>" kvs = some v) (hl : v.isLink = false) :
+    walk (.recursive F (.fields [("l", .matcher), (":>", .edge)]) .none) (.map kvs)
+      = Res.seq ⟨[ln], false⟩ (walk (.recursive F F .none) v) := by
+  have he1 : explore (.recursive F (.fields [("l", .matcher), (":>", .edge)]) .none) "l"
+      = some (.recursive F .matcher .none) := by
+    simp [explore_rec_fields, lookupSel, hasEdge]
+  have he2 : explore (.recursive F (.fields [("l", .matcher), (":>", .edge)]) .none) ":>"
+      = some (.recursive F F .none) := by
+    simp [explore_rec_fields, lookupSel, hasEdge, replaceEdge]
+  rw [walk]
+  simp [visit, isMatch, interests, Res.seqAll, walkLookup_eq, h1, h2, childStep, he1, he2, hl, hl1,
+    walk_limit_any]
+
+theorem parsesLimitB_isLink {l : Limit} {ln : Node} (h : parsesLimitB l ln = true) : ln.isLink = false := by
+  cases hc : clause ln with
+  | none => cases l <;> simp [parsesLimitB, hc] at h
+  | some kv => obtain ⟨k, v⟩ := kv; rw [clause_eq hc]; rfl
+
+section parses
+variable (fs : List (String × RSel)) (c : Covers fs)
+variable {β : Type} (cb : Node → β)
+variable (hcb : ∀ (l : Limit) (ln : Node), parsesLimitB l ln = true → cb ln = cb (encLimit l))
+include c hcb
+set_option linter.unusedSectionVars false
+
+/-- the walk did not abort and handed the visit callback nodes it treats like the canonical
+    limit nodes of `s` -/
+def Good (r : Res) (ls : List Limit) : Prop :=
+  r.aborted = false ∧ r.matched.map cb = ls.map fun l => cb (encLimit l)
+
+omit c hcb in
+theorem Good.seq {r1 r2 : Res} {l1 l2 : List Limit} (h1 : Good cb r1 l1) (h2 : Good cb r2 l2) :
+    Good cb (Res.seq r1 r2) (l1 ++ l2) := by
+  unfold Good at *
+  simp [Res.seq, h1.1, h2.1, h1.2, h2.2]
+
+omit c hcb in
+theorem Good.empty : Good cb Res.empty [] := by simp [Good, Res.empty]
+
+mutual
+theorem walk_parses : ∀ (s : Sel) (n : Node), parsesB s n = true → Good cb (walk (Vof fs) n) (limits s)
+  | .matcher sub, n, h => by
+    unfold parsesB at h
+    cases hb : bodyOf "." n with
+    | none => simp [hb] at h
+    | some kvs =>
+      rw [bodyOf_eq hb, walk_V_single fs c.nodup]
+      simp [childStep, explore_V, c.matcher_, limits, Good, Res.empty]
+  | .edge, n, h => by
+    unfold parsesB at h
+    cases hb : bodyOf "@" n with
+    | none => simp [hb] at h
+    | some kvs =>
+      rw [bodyOf_eq hb, walk_V_single fs c.nodup]
+      simp [childStep, explore_V, c.edge_, limits, Good, Res.empty]
+  | .all s', n, h => by
+    unfold parsesB at h
+    cases hb : bodyOf "a" n with
+    | none => simp [hb] at h
+    | some kvs =>
+      simp only [hb] at h
+      cases hl : lookupNode ">" kvs with
+      | none => simp [hl] at h
+      | some n' =>
+        simp only [hl] at h
+        rw [bodyOf_eq hb, step_next fs c "a" c.all_ kvs n' hl (parsesB_isLink s' n' h), limits]
+        exact walk_parses s' n' h
+  | .index i s', n, h => by
+    unfold parsesB at h
+    cases hb : bodyOf "i" n with
+    | none => simp [hb] at h
+    | some kvs =>
+      simp only [hb] at h
+      cases hl : lookupNode ">" kvs with
+      | none => cases hi : lookupNode "i" kvs <;> simp [hl, hi] at h
+      | some n' =>
+        have h' : parsesB s' n' = true := by
+          cases hi : lookupNode "i" kvs with
+          | none => simp [hl, hi] at h
+          | some iv => cases iv <;> simp [hl, hi] at h <;> exact h.2
+        rw [bodyOf_eq hb, step_next fs c "i" c.index_ kvs n' hl (parsesB_isLink s' n' h'), limits]
+        exact walk_parses s' n' h'
+  | .range a b s', n, h => by
+    unfold parsesB at h
+    cases hb : bodyOf "r" n with
+    | none => simp [hb] at h
+    | some kvs =>
+      simp only [hb] at h
+      cases hl : lookupNode ">" kvs with
+      | none => cases h1 : lookupNode "^" kvs <;> cases h2 : lookupNode "$" kvs <;> simp [hl, h1, h2] at h
+      | some n' =>
+        have h' : parsesB s' n' = true := by
+          cases h1 : lookupNode "^" kvs with
+          | none => simp [hl, h1] at h
+          | some v1 =>
+            cases h2 : lookupNode "$" kvs with
+            | none => cases v1 <;> simp [hl, h1, h2] at h
+            | some v2 => cases v1 <;> cases v2 <;> simp [hl, h1, h2] at h <;> exact h.2
+        rw [bodyOf_eq hb, step_next fs c "r" c.range_ kvs n' hl (parsesB_isLink s' n' h'), limits]
+        exact walk_parses s' n' h'
+  | .interpretAs adl s', n, h => by
+    unfold parsesB at h
+    cases hb : bodyOf "~" n with
+    | none => simp [hb] at h
+    | some kvs =>
+      simp only [hb] at h
+      cases hl : lookupNode ">" kvs with
+      | none => cases h1 : lookupNode "as" kvs <;> simp [hl, h1] at h
+      | some n' =>
+        have h' : parsesB s' n' = true := by
+          cases h1 : lookupNode "as" kvs with
+          | none => simp [hl, h1] at h
+          | some v1 => cases v1 <;> simp [hl, h1] at h <;> exact h.2
+        rw [bodyOf_eq hb, step_next fs c "~" c.interpretAs_ kvs n' hl (parsesB_isLink s' n' h'), limits]
+        exact walk_parses s' n' h'
+  | .recursive l seq st, n, h => by
+    unfold parsesB at h
+    cases hb : bodyOf "R" n with
+    | none => simp [hb] at h
+    | some kvs =>
+      simp only [hb] at h
+      cases h1 : lookupNode "l" kvs with
+      | none => simp [h1] at h
+      | some ln =>
+        cases h2 : lookupNode ":>" kvs with
+        | none => simp [h1, h2] at h
+        | some sn =>
+          simp only [h1, h2, Bool.and_eq_true] at h
+          have hlim := h.1.1
+          have hseq := h.2
+          rw [bodyOf_eq hb, walk_V_single fs c.nodup]
+          have : explore (Vof fs) "R" = some (.recursive (.fields fs) (.fields [("l", .matcher), (":>", .edge)]) .none) := by
+            simp [explore_V, c.recursive_, hasEdge]
+          simp only [childStep, this, Node.isLink]
+          rw [walk_rec_clause_any _ kvs ln sn h1 (parsesLimitB_isLink hlim) h2 (parsesB_isLink seq sn hseq)]
+          have ih := walk_parses seq sn hseq
+          unfold Vof at ih
+          have hone : Good cb ⟨[ln], false⟩ [l] := by simp [Good, hcb l ln hlim]
+          have := Good.seq cb hone ih
+          simpa [limits] using this
+  | .fields fs', n, h => by
+    unfold parsesB at h
+    cases hb : bodyOf "f" n with
+    | none => simp [hb] at h
+    | some kvs =>
+      simp only [hb] at h
+      cases hf : lookupNode "f>" kvs with
+      | none => simp [hf] at h
+      | some fn =>
+        cases fn with
+        | map fkvs =>
+          simp only [hf] at h
+          rw [bodyOf_eq hb, walk_V_single fs c.nodup]
+          have h1 : explore (Vof fs) "f" = some (.recursive (.fields fs) (.fields [("f>", .all .edge)]) .none) := by
+            simp [explore_V, c.fields_, hasEdge]
+          have h2 : explore (.recursive (.fields fs) (.fields [("f>", .all .edge)]) .none) "f>"
+              = some (.recursive (.fields fs) (.all .edge) .none) := by
+            simp [explore_rec_fields, lookupSel, hasEdge]
+          simp only [childStep, h1, Node.isLink]
+          rw [walk]
+          simp only [visit, isMatch, interests, List.map, Res.seqAll, walkLookup_eq, hf,
+            childStep, h2, Node.isLink, Res.seq_empty_left, Res.seq_empty_right, Bool.false_eq_true, if_false]
+          rw [walk]
+          simp only [visit, isMatch, interests, Bool.false_eq_true, if_false, Res.seq_empty_left, limits]
+          exact walk_parsesFields fs' fkvs h
+        | _ => simp [hf] at h
+  | .union ms, n, h => by
+    unfold parsesB at h
+    cases hc : clause n with
+    | none => simp [hc] at h
+    | some kv =>
+      obtain ⟨k, v⟩ := kv
+      cases v with
+      | list xs =>
+        simp only [hc, Bool.and_eq_true, beq_iff_eq] at h
+        rw [clause_eq hc, h.1, walk_V_single fs c.nodup]
+        have h1 : explore (Vof fs) "|" = some (.recursive (.fields fs) (.all .edge) .none) := by
+          simp [explore_V, c.union_, hasEdge]
+        simp only [childStep, h1, Node.isLink]
+        rw [walk]
+        simp only [visit, isMatch, interests, Bool.false_eq_true, if_false, Res.seq_empty_left, limits]
+        exact walk_parsesList ms xs 0 h.2
+      | _ => simp [hc] at h
+theorem walk_parsesFields : ∀ (fs' : List (String × Sel)) (kvs : List (String × Node)),
+    parsesFieldsB fs' kvs = true →
+    Good cb (walkEntries (.recursive (.fields fs) (.all .edge) .none) kvs) (limitsFields fs')
+  | [], [], _ => by simp [walkEntries, limitsFields, Good, Res.empty]
+  | [], _ :: _, h => by simp [parsesFieldsB] at h
+  | _ :: _, [], h => by simp [parsesFieldsB] at h
+  | (k, s) :: rest, (k', n) :: ns, h => by
+    simp only [parsesFieldsB, Bool.and_eq_true] at h
+    have ih1 := walk_parses s n h.1.2
+    have ih2 := walk_parsesFields rest ns h.2
+    unfold Vof at ih1
+    have := Good.seq cb ih1 ih2
+    simpa [walkEntries, childStep, explore_rec_all_edge, parsesB_isLink s n h.1.2, limitsFields] using this
+theorem walk_parsesList : ∀ (ms : List Sel) (xs : List Node) (i : Nat),
+    parsesListB ms xs = true →
+    Good cb (walkElems (.recursive (.fields fs) (.all .edge) .none) i xs) (limitsList ms)
+  | [], [], _, _ => by simp [walkElems, limitsList, Good, Res.empty]
+  | [], _ :: _, _, h => by simp [parsesListB] at h
+  | _ :: _, [], _, h => by simp [parsesListB] at h
+  | s :: rest, n :: ns, i, h => by
+    simp only [parsesListB, Bool.and_eq_true] at h
+    have ih1 := walk_parses s n h.1
+    have ih2 := walk_parsesList rest ns (i + 1) h.2
+    unfold Vof at ih1
+    have := Good.seq cb ih1 ih2
+    simpa [walkElems, childStep, explore_rec_all_edge, parsesB_isLink s n h.1, limitsList] using this
+end
+
+end parses
+
+/-- the canonical encoding is one of the nodes ParseSelector reads as `s` -/
+theorem parsesLimitB_enc (l : Limit) : parsesLimitB l (encLimit l) = true := by
+  cases l <;> simp [parsesLimitB, encLimit, clause]
+
+mutual
+theorem parsesB_enc : ∀ s : Sel, parsesB s (enc s) = true
+  | .matcher none => by simp [parsesB, enc, bodyOf, clause, parsesSubsetB, lookupNode]
+  | .matcher (some (a, b)) => by simp [parsesB, enc, bodyOf, clause, parsesSubsetB, lookupNode]
+  | .edge => by simp [parsesB, enc, bodyOf, clause]
+  | .all n => by simp [parsesB, enc, bodyOf, clause, lookupNode, parsesB_enc n]
+  | .index i n => by simp [parsesB, enc, bodyOf, clause, lookupNode, parsesB_enc n]
+  | .range a b n => by simp [parsesB, enc, bodyOf, clause, lookupNode, parsesB_enc n]
+  | .interpretAs adl n => by simp [parsesB, enc, bodyOf, clause, lookupNode, parsesB_enc n]
+  | .recursive l seq none => by
+    simp [parsesB, enc, bodyOf, clause, lookupNode, parsesB_enc seq, parsesLimitB_enc, parsesStopB]
+  | .recursive l seq (some st) => by
+    simp [parsesB, enc, bodyOf, clause, lookupNode, parsesB_enc seq, parsesLimitB_enc, parsesStopB]
+  | .fields fs => by simp [parsesB, enc, bodyOf, clause, lookupNode, parsesFieldsB_enc fs]
+  | .union ms => by simp [parsesB, enc, clause, parsesListB_enc ms]
+theorem parsesFieldsB_enc : ∀ fs : List (String × Sel), parsesFieldsB fs (encFields fs) = true
+  | [] => by simp [parsesFieldsB, encFields]
+  | (k, s) :: rest => by simp [parsesFieldsB, encFields, parsesB_enc s, parsesFieldsB_enc rest]
+theorem parsesListB_enc : ∀ ms : List Sel, parsesListB ms (encList ms) = true
+  | [] => by simp [parsesListB, encList]
+  | s :: rest => by simp [parsesListB, encList, parsesB_enc s, parsesListB_enc rest]
+end
+
 /-! ### what `limits` collects: the limit of every ExploreRecursive clause occurring in `s` -/
 
 /-- `Occurs t s`: the clause `t` occurs in the selector specification `s`, at any depth, under
